@@ -440,6 +440,41 @@ def typeinfo_case(ctx, rng, root, text, base_case):
     except Exception as e:  # noqa: BLE001
         ctx.violation(f"typeinfo-visit-crash:{type(e).__name__}", {"tree": text[:300], "exception": repr(e)[:200]}, case)
         return
+    # ... nor on replacements: below a node that was replaced on enter, the context is that of the replacement - the same
+    # an idle visitor is shown when it walks the edited document (replacements keep list positions, so paths line up)
+    fields = [n for n in walk(root) if isinstance(n, (A.FieldNode, A.InlineFragmentNode))]
+    if len(fields) >= 2:
+        target, repl = rng.sample(fields, 2)
+        if not any(x is target for x in walk(repl)) and not any(x is repl for x in walk(target)):
+            seen_edit, seen_idle = [], []
+
+            class PathRecorder(Visitor):
+                def __init__(self, ti, out, swap):
+                    super().__init__()
+                    self.ti, self.out, self.swap = ti, out, swap
+
+                def enter(self, node, key, parent, path, ancestors):
+                    self.out.append((tuple(path), node.kind, context(self.ti)))
+                    if self.swap and node is target:
+                        self.out[-1] = self.out[-1] + ('replaced-here',)
+                        return repl
+                    return None
+            try:
+                ti3, ti4 = TypeInfo(rich()), TypeInfo(rich())
+                edited = visit(root, TypeInfoVisitor(ti3, PathRecorder(ti3, seen_edit, True)))
+                visit(edited, TypeInfoVisitor(ti4, PathRecorder(ti4, seen_idle, False)))
+            except Exception as e:  # noqa: BLE001
+                ctx.violation(f"typeinfo-visit-crash:{type(e).__name__}", {"tree": text[:300], "exception": repr(e)[:200], "replacement": True}, case)
+                return
+            ctx.count("typeinfo_contexts_compared_under_replacement")
+            # the entry for the replaced node itself is recorded before the replacement is known: skip that one
+            a = [e[:3] for e in seen_edit if len(e) == 3]
+            b = {(p_, k_): c_ for p_, k_, c_ in seen_idle}
+            for p_, k_, c_ in a:
+                if (p_, k_) in b and b[(p_, k_)] != c_:
+                    ctx.violation("typeinfo-context-wrong-below-replacement", {"tree": text[:300], "path": list(p_), "node": k_,
+                                                                               "editing_visitor_saw": c_, "walk_of_edited_tree_sees": b[(p_, k_)]}, case)
+                    return
     ctx.count("typeinfo_contexts_compared", len(scripted))
     ref = {(i, ph): c for i, ph, c in idle}
     for i, ph, c in scripted:
